@@ -153,10 +153,16 @@ class Mini:
 def replay_mini(case):
     """run a case through the replica; returns (mini, list of (op token, replica layout) at each T)"""
     t = case.split()
-    m = Mini(t[0], t[2])
+    script, ops = t[2], t[3:]
+    if script.startswith("n"):               # the script starts at zix_hash_new's own two requests
+        if "0" in script[1:3]:
+            script, ops = "-", []            # zix_hash_new returns NULL: nothing runs
+        else:
+            script = script[3:] or "-"
+    m = Mini(t[0], script)
     pend = None
     layouts = []
-    for op in t[3:]:
+    for op in ops:
         c = op[0]
         if c in "IA":
             k, rid = op[1:].split(".")
@@ -398,6 +404,9 @@ def with_faults(r, case, how_many):
         out.append(" ".join([t[0], t[1], "1" * i + "0"] + t[3:]))
         if r.random() < 0.3:
             out.append(" ".join([t[0], t[1], "1" * i + "0" * 6] + t[3:]))
+    # the same with the script starting at zix_hash_new's own requests (struct, entries array)
+    for i in range(min(how_many, 4)):
+        out.append(" ".join([t[0], t[1], "n" + "1" * i + "0"] + t[3:]))
     return out
 
 
@@ -477,7 +486,8 @@ def corpus(ctx):
 def build(ctx):
     ctx.build_driver("drv_c03", ["hash.c", "allocator.c"])
     exe = os.path.join(vlib.OCAML_BUILD, "drv_c03")
-    deps = [os.path.join(vlib.COQ, f) for f in ("HashModel.v", "HashSpec.v", "ExtractC03.v")] + \
+    deps = [os.path.join(vlib.COQ, f) for f in ("HashModel.v", "HashSpec.v", "ExtractC03.v", "HashAllocModel.v",
+                                                "AllocModel.v", "FaultSpec.v")] + \
            [os.path.join(vlib.VERIF, "ocaml", "drv_c03.ml")]
     if not os.path.exists(exe) or any(os.path.getmtime(d) > os.path.getmtime(exe) for d in deps):
         rc, out, err = vlib.sh([os.path.join(vlib.VERIF, "tools", "build_models.sh"), "C03"], timeout=900)
@@ -522,6 +532,9 @@ def l1_extra(case, impl_obs):
     t = case.split()
     ops = t[3:]
     faulty = "0" in t[2]
+    new_must_fail = t[2].startswith("n") and "0" in t[2][1:3]
+    if new_must_fail or impl_obs.startswith("new-failed"):
+        return new_must_fail and impl_obs == "new-failed"      # NULL, and nothing outstanding (no LEAK token)
     toks = impl_obs.split()
     if len(toks) != len(ops) + 1 or toks[-1] != "roles=ok":
         return False
@@ -605,7 +618,8 @@ def untokens(toks):
 
 def stats(cases, impl):
     d = {"by_hash": {}, "by_offset": {}, "ops": {}, "with_fail_script": 0, "impl_NO_MEM": 0, "impl_EXISTS": 0,
-         "impl_skip": 0, "impl_HANG": 0, "impl_CRASH": 0, "history_len_max": 0}
+         "impl_skip": 0, "impl_HANG": 0, "impl_CRASH": 0, "impl_new_failed": 0, "alloc_events": 0,
+         "history_len_max": 0}
     min_empty, zero_cases, full_absent, absent_del, layout_checked, layout_bad, max_n = None, 0, 0, 0, 0, 0, 0
     for c, im in zip(cases, impl):
         t = c.split()
@@ -621,6 +635,10 @@ def stats(cases, impl):
         d["impl_skip"] += ob.count("=skip")
         d["impl_HANG"] += ob.count("HANG")
         d["impl_CRASH"] += ob.count("CRASH")
+        d["impl_new_failed"] += ob.startswith("new-failed")
+        if " mem=" in im or im.startswith("mem="):
+            mt = im.rsplit("mem=", 1)[1]
+            d["alloc_events"] += 0 if mt == "-" else mt.count(",") + 1
         try:
             m, layouts = replay_mini(c)
         except Exception:
